@@ -800,9 +800,11 @@ func (tree *MutableTree) SaveVersion() ([]byte, int64, error) {
 		}
 	}
 
+	verifYield("save:before-commit")
 	if err := tree.ndb.Commit(); err != nil {
 		return nil, version, err
 	}
+	verifYield("save:committed")
 
 	tree.ndb.resetLatestVersion(version)
 	tree.version = version
